@@ -86,15 +86,14 @@ func TestVerifC15(t *testing.T) {
 		jobs = append(jobs, mc.ExploreJob(mc.Options{Job: "deliver/2-subscribers", MaxDev: -1}, deliver(2)))
 		jobs = append(jobs, mc.ExploreJob(mc.Options{Job: "deliver/3-subscribers", MaxDev: -1}, deliver(3)))
 
-		// ---- job 2: QoS1 retransmission until PUBACK, not afterwards ----
+		// ---- job 2: QoS1 retransmission until PUBACK, not afterwards; PUBACKs may come for any subset, in any order ----
 		resend := func(c *mc.Ctx) {
 			vb := vNewBroker(&Spec{})
 			defer vb.close()
 			cl := vb.connect("c0", true)
 			cl.subscribe("t", 1)
 			cl.take()
-			nmsg := 1 + c.Choose(2, "messages")
-			ackAfter := []int{0, 1, 3, -1}[c.Choose(4, "ack-after-periods")] // -1: never
+			nmsg := 1 + c.Choose(3, "messages")
 			for m := 0; m < nmsg; m++ {
 				vb.httpPublish("t", 1, fmt.Sprintf("m%d", m))
 			}
@@ -102,42 +101,49 @@ func TestVerifC15(t *testing.T) {
 			if len(first) != nmsg {
 				c.Failf("qos1-not-delivered", "%d QoS1 messages published, %d received at once", nmsg, len(first))
 			}
-			oldest := first[0].MessageID
-			acked := false
-			if ackAfter == 0 {
-				for _, p := range first {
-					cl.puback(p.MessageID)
-				}
-				acked = true
-			}
-			for period := 1; period <= 5; period++ {
-				time.Sleep(c15Resend)
-				synctest.Wait()
-				got := publishesOf(cl.take())
-				c.Note("period %d: acked=%v retransmissions=%d", period, acked, len(got))
-				if acked {
-					for _, p := range got {
-						c.Failf("retransmitted-after-puback", "period %d: packet id %d retransmitted after its PUBACK", period, p.MessageID)
-					}
-				} else {
-					seen := false
-					for _, p := range got {
-						if p.MessageID == oldest {
-							seen = true
+			acked := map[uint16]bool{}
+			// in every period (0 = at once) the client may acknowledge any one of the still unacknowledged messages, or none
+			for period := 0; period <= 5; period++ {
+				if period > 0 {
+					time.Sleep(c15Resend)
+					synctest.Wait()
+					got := publishesOf(cl.take())
+					var oldest *packets.PublishPacket
+					for _, p := range first {
+						if !acked[p.MessageID] {
+							oldest = p
+							break
 						}
 					}
-					if !seen {
-						c.Failf("unacked-oldest-not-retransmitted", "period %d: oldest unacknowledged packet id %d was not retransmitted (got %d packets)", period, oldest, len(got))
+					seenOldest := false
+					for _, p := range got {
+						if acked[p.MessageID] {
+							c.Failf("retransmitted-after-puback", "period %d: packet id %d retransmitted after its PUBACK (acked %v)", period, p.MessageID, acked)
+						}
+						if oldest != nil && p.MessageID == oldest.MessageID {
+							seenOldest = true
+						}
+					}
+					c.Note("period %d: acked=%v retransmissions=%d", period, acked, len(got))
+					if oldest != nil && !seenOldest {
+						inOrder := "acks-in-order"
+						for _, p := range first {
+							if p.MessageID > oldest.MessageID && acked[p.MessageID] {
+								inOrder = "later-message-acked-first"
+							}
+						}
+						c.Failf("unacked-oldest-not-retransmitted:"+inOrder, "period %d: the oldest unacknowledged packet id %d was not retransmitted (acked so far %v, %d packets received)", period, oldest.MessageID, acked, len(got))
 					}
 				}
-				if !acked && ackAfter == period {
-					for _, p := range first {
-						cl.puback(p.MessageID)
+				if period <= 3 {
+					k := c.Choose(nmsg+1, "ack-which")
+					if k > 0 && !acked[first[k-1].MessageID] {
+						cl.puback(first[k-1].MessageID)
+						acked[first[k-1].MessageID] = true
 					}
-					acked = true
 				}
 			}
-			c.Outcome(fmt.Sprintf("msgs%d-ack%d", nmsg, ackAfter))
+			c.Outcome(fmt.Sprintf("msgs%d-acked%d", nmsg, len(acked)))
 		}
 		jobs = append(jobs, mc.ExploreJob(mc.Options{Job: "qos1-resend", MaxDev: -1}, resend))
 
